@@ -110,6 +110,12 @@ def run(ctx: Ctx):
     for s in result_sites(top):
         ctx.ob("C14-O2", "R5 PAIRING", top, "published solution is the component list, objective its length", ast.unparse(s.arg("solution")) == "components" and ast.unparse(s.arg("objective")) == "len(components)", "", node=s.call)
 
+    sc_ = ctx.func("scc", "strongly_connected_components.strongconnect")
+    nloops = [n for n in own_nodes(sc_.node) if isinstance(n, ast.For) and "neighbors" in ast.unparse(n.iter)]
+    ctx.floor("neighbour loops in strongconnect", len(nloops), 1)
+    for nl in nloops:
+        early = [x for x in ast.walk(nl) if isinstance(x, (ast.Break, ast.Return))]
+        ctx.ob("C14-O2", "R21 search discipline", sc_, "the depth-first search looks at every neighbour of a node (no early exit from the neighbour loop)", not early, "a neighbour that is skipped is visited later as a new root: if it reaches back the component is split, otherwise its component is listed after one that has an edge into it", node=early[0] if early else nl)
     # O3 Kahn
     check_kahn(ctx, "C14-O3")
 
@@ -196,6 +202,11 @@ def _v_topo_successor_sets(tree):
     M.replace_expr(g, lambda e: M.src_is(e, "{v: [] for v in node_list}"), M.expr("{v: set() for v in node_list}"))
 
 
+def _v_tarjan_early_break(tree):
+    g = M.find_func(tree, "strongly_connected_components.strongconnect")
+    M.replace_stmt(g, lambda s: isinstance(s, ast.Assign) and M.src_has(s, "min(low_link[v], index[w])"), lambda s: [s] + M.stmts("if low_link[v] == 0:\n    break"))
+
+
 def _t_reformat(tree):
     pass
 
@@ -211,5 +222,6 @@ VARIANTS = [
     M.Variant("condensation keeps intra-component edges", SC, _v_condense_self_edges, "C14-O4"),
     M.Variant("condense fast path for all-singleton components keeps self loops (seed C14-D)", SC, _v_condense_fast_path, "C14-O4"),
     M.Variant("topological_sort keeps successor sets but counts every edge occurrence (seed C12-D)", SC, _v_topo_successor_sets, "C14-O3"),
+    M.Variant("Tarjan leaves the neighbour loop once the low-link reached 0 (seed C14-H)", SC, _v_tarjan_early_break, "C14-O2"),
     M.Variant("twin: reformat", SC, _t_reformat, None),
 ]
